@@ -123,7 +123,7 @@ let rec algo_of s : algo = match lst s with
   | _ -> failwith "algo"
 let mk_astate is_strategy algos : astate =
   { a_is_strategy = is_strategy; a_stack = algos; a_temp = empty_temp (Obj.magic 0);
-    a_closed = []; a_rolled = []; a_has_closed = false; a_has_rolled = false }
+    a_closed = []; a_rolled = []; a_has_closed = false; a_has_rolled = false; a_trace = [] }
 let adata_of s : adata = match lst s with
   | [Atom "frame"; idx; cols] -> DFrame (List.map zx (lst idx), frame_of cols)
   | [Atom "dates"; l] -> DDates (List.map (fun x -> match lst x with [k; d] -> (natx k, zx d) | _ -> failwith "dates") (lst l))
@@ -165,7 +165,7 @@ let err_name (e : err) = match e with
   | EBidofferIdx -> "EBidofferIdx" | ECustomNoBidoffer -> "ECustomNoBidoffer" | EZeroBase -> "EZeroBase"
   | EZeroNotl -> "EZeroNotl" | EFiChild -> "EFiChild" | EDupChild -> "EDupChild" | EDupColumn -> "EDupColumn"
   | ESizingStuck -> "ESizingStuck" | ESizingDiverged -> "ESizingDiverged" | ESizingLoop -> "ESizingLoop"
-  | EParentless -> "EParentless" | EAttr -> "EAttr" | EIndex -> "EIndex" | EType -> "EType" | EValue -> "EValue"
+  | EParentless -> "EParentless" | EAttr -> "EAttr" | EIndex -> "EIndex" | EType -> "EType" | EValue -> "EValue" | EZeroDiv -> "EZeroDiv"
   | ENanArith -> "ENanArith" | EOutOfFuel -> "EOutOfFuel" | EOther -> "EOther"
 
 let rec dump_node (path : string) (n : astate node) =
@@ -210,6 +210,17 @@ let rec dump_node (path : string) (n : astate node) =
     Printf.printf "%s hg_flows %s\n" path (plist pf g.hg_flows);
     if g.g_bo_set then Printf.printf "%s hg_bopaid %s\n" path (plist pf g.hg_bopaid);
     List.iter (fun (k, col) -> Printf.printf "%s ucol.%d %s\n" path (int_of_nat k) (plist pcell col)) g.g_ucols;
+    List.iteri (fun j ((now, b), tm) ->
+        let ids l = plist (fun k -> string_of_int (int_of_nat k)) l in
+        Printf.printf "%s trace.%d.res %s %s\n" path j (pnow now) (pb b);
+        (match tm.t_selected with None -> () | Some l -> Printf.printf "%s trace.%d.selected %s\n" path j (ids l));
+        (match tm.t_weights with None -> () | Some l ->
+           Printf.printf "%s trace.%d.weights %s\n" path j
+             (plist (fun (k, w) -> string_of_int (int_of_nat k) ^ " " ^ pf w) l));
+        (match tm.t_stat with None -> () | Some l ->
+           Printf.printf "%s trace.%d.stat %s\n" path j
+             (plist (fun (k, w) -> string_of_int (int_of_nat k) ^ " " ^ pcell w) l)))
+      g.g_algo.a_trace;
     List.iter (fun k -> dump_node (path ^ "." ^ string_of_int (int_of_nat (node_id (Obj.magic 0) k))) k) kids;
     (match paper with
      | None -> ()
